@@ -297,7 +297,7 @@ def case_strategy(draw):
 
 def plan(tier, seed):
     if tier == "quick":
-        t = [{"task": "grid", "slice": i, "nslices": 8, "full": False, "per": 5, "cfgs": 8} for i in range(8)]
+        t = [{"task": "grid", "slice": i, "nslices": 4, "full": False, "per": 5, "cfgs": 8} for i in range(4)]
         t += [{"task": "hyp", "examples": 600} for _ in range(4)]
         return t
     t = [{"task": "grid", "slice": i, "nslices": 48, "full": True, "per": 8, "cfgs": 3} for i in range(48)]
@@ -333,7 +333,7 @@ def run_task(ctx, task, **kw):
         ctx.note("grid_modes", len(modes))
         ctx.note("grid_cells", len(cells))
     elif task == "hyp":
-        core.hyp_run(ctx, case_strategy(), lambda c: check_case(ctx, c), kw["examples"], chunk=500)
+        core.hyp_run(ctx, case_strategy(), lambda c: check_case(ctx, c), kw["examples"], chunk=300)
     else:
         raise core.HarnessError(f"unknown task {task}")
 
